@@ -38,8 +38,16 @@ pub fn token() -> BoxedStrategy<String> {
         // words that occur in real version strings (all of them are just letters to the rule)
         3 => (prop::sample::select(vec!["patch", "final", "dev", "git", "svn", "cvs", "snapshot", "release", "stable", "test", "post", "rev", "build", "update", "p", "r", "v", "jdk", "src", "bin", "alpha", "beta", "pre", "rc", "pl"]), any::<bool>())
             .prop_map(|(w, up)| if up { w.to_ascii_uppercase() } else { w.to_string() }),
+        // tokens the library's own source spells out (see engine/dict.rs), upper or lower case
+        3 => (crate::engine::dict::string_token(version_token_char, "a"), 0u8..4)
+            .prop_map(|(w, m)| match m { 0 => w.to_ascii_uppercase(), 1 => w.to_ascii_lowercase(), _ => w }),
     ]
     .boxed()
+}
+
+/// characters a version token may consist of (never `-` `<` `>` `{` `}` `=` or a line break)
+pub fn version_token_char(c: char) -> bool {
+    c.is_alphanumeric() || ".+_~,:!*".contains(c)
 }
 
 pub fn tokens(max: usize) -> BoxedStrategy<Vec<String>> {
@@ -132,13 +140,16 @@ pub fn render(v: &[String], cap: usize) -> String {
 pub fn pair(max_tokens: usize) -> BoxedStrategy<(String, String)> {
     // one pair in twenty is long (a shared prefix of dozens of components)
     let toks = prop_oneof![19 => tokens(max_tokens), 1 => prop::collection::vec(token(), 20..=70).boxed()];
-    (toks, prop::collection::vec(edit(), 0..=3))
-        .prop_map(|(a, edits)| {
-            let mut b = a.clone();
-            for e in &edits {
-                apply_edit(&mut b, e);
-            }
-            (render(&a, 18), render(&b, 18))
-        })
-        .boxed()
+    let short = (toks, prop::collection::vec(edit(), 0..=3)).prop_map(|(a, edits)| {
+        let mut b = a.clone();
+        for e in &edits {
+            apply_edit(&mut b, e);
+        }
+        (render(&a, 18), render(&b, 18))
+    });
+    // one pair in sixty shares a prefix of very many components (a chosen count) and differs
+    // only behind it
+    let long = (crate::engine::gen::interesting_len(1300), prop::sample::select(vec!["1.", "0.", "a", "1_", "1a", "rc1."]), tokens(3), tokens(3))
+        .prop_map(|(n, unit, a, b)| (render(&[vec![unit.repeat(n)], a].concat(), 18), render(&[vec![unit.repeat(n)], b].concat(), 18)));
+    prop_oneof![59 => short, 1 => long].boxed()
 }
